@@ -60,6 +60,30 @@ static bool bset_subset(const bset *a, const bset *b) {
 /* the object must still work: fault-free operations behave like a set */
 static void bm_continue(varintBitmap *vb, bset *m) {
     static const uint16_t probe[] = {0, 1, 4095, 4096, 4097, 30000, 65535};
+    /* first the operations that size new objects from this one's bookkeeping, before anything can repair it */
+    {
+        varintBitmap *cl = varintBitmapClone(vb);
+        bset cs;
+        if (cl) {
+            if (bm_snapshot(cl, &cs, "clone after the failure") && !bset_eq(&cs, m)) OFAIL("object-unusable-after-failure", "%s: clone differs from the set", g_scen);
+            varintBitmapFree(cl);
+        }
+        varintBitmap *un = varintBitmapOr(vb, vb);
+        if (un) {
+            if (bm_snapshot(un, &cs, "self-union after the failure") && !bset_eq(&cs, m)) OFAIL("object-unusable-after-failure", "%s: Or(x, x) differs from the set", g_scen);
+            varintBitmapFree(un);
+        }
+        uint8_t *eb = malloc(varintBitmapSizeBytes(vb) + 64);
+        size_t en = varintBitmapEncode(vb, eb);
+        varintBitmap *dec = varintBitmapDecode(eb, en);
+        if (dec) {
+            if (bm_snapshot(dec, &cs, "encode+decode after the failure") && !bset_eq(&cs, m)) OFAIL("object-unusable-after-failure", "%s: encode+decode differs from the set", g_scen);
+            varintBitmapFree(dec);
+        } else {
+            OFAIL("object-unusable-after-failure", "%s: the object's own encoding is rejected by the decoder", g_scen);
+        }
+        free(eb);
+    }
     for (unsigned i = 0; i < sizeof probe / sizeof probe[0]; i++) {
         bool had = b_has(m, probe[i]);
         bool r1 = varintBitmapAdd(vb, probe[i]);
